@@ -641,3 +641,545 @@ Qed.
 Lemma format_env_empty apply_spec p env : print p = [] ->
   format_env apply_spec (gen_of p) env = FOk [].
 Proof. intros H. unfold format_env, gen_of. cbn [g_empty]. now rewrite H. Qed.
+
+(* ---------- rejection at creation; fuel ---------- *)
+Fixpoint idx_fold (l : list attr) (idx : nat) : nat :=
+  match l with [] => idx | _ :: r => idx_fold r (Nat.modulo (S idx) 256) end.
+
+(* processing a well-formed prefix of the pattern, whatever follows *)
+Lemma gen_loop_prefix : forall p acc idx order iset fuel tail,
+  Forall wf_item p -> no_adj_lit p -> find_attr acc = None -> boundary acc p ->
+  gen_loop (length (attrs p) + fuel) (acc ++ print p ++ tail) idx order iset =
+  gen_loop fuel ((acc ++ fmt_body p) ++ tail) (idx_fold (attrs p) idx)
+           (order_fold (attrs p) idx order) (set_fold (attrs p) iset)
+  /\ find_attr (acc ++ fmt_body p) = None.
+Proof.
+  induction p as [|it r IH]; intros acc idx order iset fuel tail Hwf Hadj Hacc Hb.
+  - cbn [print map concat fmt_body app attrs order_fold set_fold idx_fold length plus].
+    rewrite app_nil_r. auto.
+  - inversion Hwf as [|? ? Hit Hr]; subst.
+    destruct it as [s|a sp].
+    + rewrite print_cons, fmt_body_cons. cbn [print_item fmt_item attrs].
+      replace (acc ++ (s ++ print r) ++ tail) with ((acc ++ s) ++ print r ++ tail)
+        by (now rewrite <- !app_assoc).
+      replace (acc ++ s ++ fmt_body r) with ((acc ++ s) ++ fmt_body r)
+        by (now rewrite <- !app_assoc).
+      apply IH; auto.
+      * cbn [no_adj_lit] in Hadj. destruct r as [|[s'|a' sp'] r']; auto. contradiction.
+      * cbn [no_adj_lit] in Hadj. destruct r as [|[s'|a' sp'] r']; cbn [boundary]; auto. contradiction.
+    + rewrite print_cons, fmt_body_cons. cbn [attrs order_fold set_fold idx_fold length plus].
+      replace (acc ++ (print_item (Attr a sp) ++ print r) ++ tail)
+        with (acc ++ print_item (Attr a sp) ++ (print r ++ tail)) by (now rewrite <- !app_assoc).
+      rewrite gen_loop_step by auto.
+      assert (Hf : find_attr (acc ++ fmt_item (Attr a sp)) = None).
+      { cbn [fmt_item app]. apply find_attr_app_none; [exact Hacc| |apply andb_false_r].
+        apply find_attr_field. destruct sp; exact Hit. }
+      replace (acc ++ fmt_item (Attr a sp) ++ print r ++ tail)
+        with ((acc ++ fmt_item (Attr a sp)) ++ print r ++ tail) by (now rewrite <- !app_assoc).
+      replace (acc ++ fmt_item (Attr a sp) ++ fmt_body r)
+        with ((acc ++ fmt_item (Attr a sp)) ++ fmt_body r) by (now rewrite <- !app_assoc).
+      apply IH; auto.
+      destruct r as [|[s'|a' sp'] r']; cbn [boundary]; auto.
+      apply find_attr_app_none; [exact Hf| |].
+      * inversion Hr as [|? ? Hs' _]; subst. apply Hs'.
+      * unfold fmt_item. rewrite (app_assoc [c_lb]), ends_pct_app_snoc. reflexivity.
+Qed.
+
+Lemma boundary_nil p : Forall wf_item p -> boundary [] p.
+Proof.
+  destruct p as [|[s|a sp] r]; cbn [boundary app]; auto.
+  intros H. inversion H as [|? ? Hs _]; subst. apply Hs.
+Qed.
+
+(* an unterminated "%(" after any well-formed prefix is rejected when the formatter is created *)
+Lemma gen_rejects_unterminated p rest : wf p -> ~ In c_rp rest ->
+  generate (print p ++ [c_pct; c_lp] ++ rest) = GErr GE_unterminated.
+Proof.
+  intros (Hnd & Hwf & Hadj) Hrest. unfold generate.
+  set (pattern := print p ++ [c_pct; c_lp] ++ rest).
+  assert (Hfuel : exists k, S (length pattern) = length (attrs p) + S k).
+  { exists (length pattern - length (attrs p)). pose proof (attrs_le_print p).
+    unfold pattern. rewrite !app_length in *. lia. }
+  destruct Hfuel as [k ->].
+  replace (pattern ++ [c_nl]) with ([] ++ print p ++ (c_pct :: c_lp :: rest ++ [c_nl]))
+    by (unfold pattern; cbn [app]; now rewrite <- !app_assoc).
+  destruct (gen_loop_prefix p [] 0 (repeat (ATTR_NR_ITEMS - 1) ATTR_NR_ITEMS)
+              (repeat false ATTR_NR_ITEMS) (S k) (c_pct :: c_lp :: rest ++ [c_nl])
+              Hwf Hadj eq_refl (boundary_nil p Hwf)) as [-> Hclean].
+  cbn [gen_loop]. rewrite (find_attr_here _ _ Hclean).
+  rewrite split_at_none; [reflexivity|].
+  apply not_in_app; [exact Hrest|]. intros [E|[]]; discriminate.
+Qed.
+
+(* an unknown attribute name after any well-formed prefix is rejected when the formatter is
+   created (with or without a spec, whatever follows the closing parenthesis) *)
+Lemma gen_rejects_unknown p name sp post : wf p ->
+  ~ In c_rp name -> ~ In c_colon name -> attr_of_name name = None ->
+  ~ In c_rp (fspec sp) ->
+  generate (print p ++ [c_pct; c_lp] ++ name ++ fspec sp ++ [c_rp] ++ post) = GErr (GE_unknown name).
+Proof.
+  intros (Hnd & Hwf & Hadj) Hn1 Hn2 Hname Hsp. unfold generate.
+  set (pattern := print p ++ [c_pct; c_lp] ++ name ++ fspec sp ++ [c_rp] ++ post).
+  assert (Hfuel : exists k, S (length pattern) = length (attrs p) + S k).
+  { exists (length pattern - length (attrs p)). pose proof (attrs_le_print p).
+    unfold pattern. rewrite !app_length in *. lia. }
+  destruct Hfuel as [k ->].
+  replace (pattern ++ [c_nl])
+    with ([] ++ print p ++ (c_pct :: c_lp :: (name ++ fspec sp) ++ c_rp :: (post ++ [c_nl])))
+    by (unfold pattern; cbn [app]; repeat first [rewrite <- app_assoc | rewrite <- app_comm_cons];
+        reflexivity).
+  destruct (gen_loop_prefix p [] 0 (repeat (ATTR_NR_ITEMS - 1) ATTR_NR_ITEMS)
+              (repeat false ATTR_NR_ITEMS) (S k)
+              (c_pct :: c_lp :: (name ++ fspec sp) ++ c_rp :: (post ++ [c_nl]))
+              Hwf Hadj eq_refl (boundary_nil p Hwf)) as [-> Hclean].
+  cbn [gen_loop]. rewrite (find_attr_here _ _ Hclean).
+  rewrite split_at_app by (apply not_in_app; assumption).
+  destruct sp as [sp|]; cbn [fspec] in *.
+  - rewrite (split_at_app _ _ _ Hn2). now rewrite Hname.
+  - rewrite app_nil_r. rewrite (split_at_none _ _ Hn2). now rewrite Hname.
+Qed.
+
+(* the explicit fuel of the re-scan is never exhausted: every replacement shortens the string *)
+Lemma gen_loop_fuel_ok : forall fuel s idx order iset,
+  length s <= fuel -> 1 <= fuel -> gen_loop fuel s idx order iset <> LErr GE_fuel.
+Proof.
+  induction fuel as [|f IH]; intros s idx order iset Hlen Hpos; [lia|].
+  cbn [gen_loop].
+  destruct (find_attr s) as [[pre rest]|] eqn:Ef; [|discriminate].
+  apply find_attr_some in Ef. subst s.
+  destruct (split_at c_rp rest) as [[body post]|] eqn:Er; [|discriminate].
+  apply split_at_some in Er as [-> _].
+  destruct (split_at c_colon body) as [[n sp]|] eqn:Ec.
+  - apply split_at_some in Ec as [-> _].
+    destruct (attr_of_name n); [|discriminate].
+    apply IH; rewrite ?app_length in *; cbn [length] in *; rewrite ?app_length in *; cbn [length] in *; lia.
+  - destruct (attr_of_name body); [|discriminate].
+    apply IH; rewrite ?app_length in *; cbn [length] in *; rewrite ?app_length in *; cbn [length] in *; lia.
+Qed.
+
+Lemma generate_fuel_ok s : generate s <> GErr GE_fuel.
+Proof.
+  unfold generate.
+  pose proof (gen_loop_fuel_ok (S (length s)) (s ++ [c_nl]) 0
+                (repeat (ATTR_NR_ITEMS - 1) ATTR_NR_ITEMS) (repeat false ATTR_NR_ITEMS)) as H.
+  destruct (gen_loop _ _ _ _ _) as [? ? ?|e]; [discriminate|].
+  intros E. inversion E; subst. apply H; [rewrite app_length; cbn; lia|lia|reflexivity].
+Qed.
+
+(* ---------- multi-line ---------- *)
+Lemma split_on_nonempty c s : split_on c s <> [].
+Proof.
+  induction s as [|x t IH]; cbn [split_on]; [discriminate|].
+  destruct (N.eqb x c); [discriminate|]. destruct (split_on c t); [contradiction|discriminate].
+Qed.
+
+Lemma split_on_no_sep c s : ~ In c s -> split_on c s = [s].
+Proof.
+  induction s as [|x t IH]; intros H; [reflexivity|]. cbn [split_on].
+  destruct (N.eqb_spec x c) as [E|E]; [exfalso; apply H; now left|].
+  rewrite IH; [reflexivity|]. intros Hi; apply H; now right.
+Qed.
+
+Lemma split_on_app c a b : ~ In c a -> split_on c (a ++ c :: b) = a :: split_on c b.
+Proof.
+  induction a as [|x a IH]; intros H; cbn [app split_on].
+  - now rewrite N.eqb_refl.
+  - destruct (N.eqb_spec x c) as [E|E]; [exfalso; apply H; now left|].
+    rewrite IH; [reflexivity|]. intros Hi; apply H; now right.
+Qed.
+
+(* split_on is "the" split: segments hold no separator and joining them gives the text back *)
+Fixpoint join_with (c : N) (l : list bytes) : bytes :=
+  match l with
+  | [] => []
+  | x :: r => match r with [] => x | _ => x ++ c :: join_with c r end
+  end.
+
+Lemma split_on_join c s : join_with c (split_on c s) = s.
+Proof.
+  induction s as [|x t IH]; [reflexivity|]. cbn [split_on].
+  destruct (N.eqb_spec x c) as [E|E].
+  - subst. pose proof (split_on_nonempty c t) as Hn. cbn [join_with].
+    destruct (split_on c t) eqn:Es; [contradiction|]. cbn [app]. now rewrite IH.
+  - destruct (split_on c t) as [|h r] eqn:Es; [exfalso; now apply (split_on_nonempty c t)|].
+    cbn [join_with] in *. destruct r; cbn [app]; now rewrite IH.
+Qed.
+
+Lemma split_on_segments c s : Forall (fun l => ~ In c l) (split_on c s).
+Proof.
+  induction s as [|x t IH]; cbn [split_on]; [constructor; [intros []|constructor]|].
+  destruct (N.eqb_spec x c) as [E|E]; [constructor; [intros []|exact IH]|].
+  destruct (split_on c t) as [|h r]; [constructor; [|constructor]|].
+  - intros [H|[]]. now apply E.
+  - inversion IH; subst. constructor; [|assumption]. intros [H|H]; [now apply E|contradiction].
+Qed.
+
+Lemma ml_loop_spec : forall fuel s, length s < fuel ->
+  ml_loop fuel s = Some (drop_last_empty (split_on c_nl s)).
+Proof.
+  induction fuel as [|f IH]; intros s Hlen; [lia|]. cbn [ml_loop].
+  destruct s as [|x t]; [reflexivity|].
+  destruct (split_at c_nl (x :: t)) as [[l rest]|] eqn:Es.
+  - apply split_at_some in Es as [Es Hl]. rewrite Es.
+    rewrite IH; [|rewrite Es, app_length in Hlen; cbn [length] in Hlen; lia].
+    rewrite (split_on_app _ _ _ Hl).
+    pose proof (split_on_nonempty c_nl rest) as Hn.
+    destruct (split_on c_nl rest) as [|h r] eqn:E; [contradiction|].
+    destruct l; reflexivity.
+  - apply split_at_none_inv in Es. rewrite (split_on_no_sep _ _ Es). reflexivity.
+Qed.
+
+(* add_metadata_to_multi_line_logs on (and no named args): one statement per message line;
+   an empty message is one statement *)
+Lemma multiline_on na msg : nargs_empty na = true ->
+  dispatch_msgs true na msg =
+  Some (match msg with [] => [[]] | _ => drop_last_empty (split_on c_nl msg) end).
+Proof.
+  intros Hna. unfold dispatch_msgs. rewrite Hna. cbn [andb]. unfold process_multi_line.
+  destruct msg as [|x t]; [reflexivity|]. apply ml_loop_spec. lia.
+Qed.
+
+Lemma strip_one_nl_spec msg :
+  (exists m, msg = m ++ [c_nl] /\ strip_one_nl msg = m) \/
+  (strip_one_nl msg = msg /\ forall m, msg <> m ++ [c_nl]).
+Proof.
+  unfold strip_one_nl. destruct (rev msg) as [|c r] eqn:E.
+  - right. split; [reflexivity|]. intros m Hm. rewrite Hm, rev_app_distr in E. discriminate.
+  - assert (Hm : msg = rev r ++ [c]) by (rewrite <- (rev_involutive msg), E; reflexivity).
+    destruct (N.eqb_spec c c_nl) as [Ec|Ec].
+    + left. exists (rev r). subst c. auto.
+    + right. split; [reflexivity|]. intros m Hm'. rewrite Hm' in Hm.
+      apply app_inj_tail in Hm as [_ Hc]. congruence.
+Qed.
+
+(* option off, or named args present: a single statement *)
+Lemma multiline_off add_meta na msg : add_meta && nargs_empty na = false ->
+  dispatch_msgs add_meta na msg = Some [strip_one_nl msg].
+Proof. intros H. unfold dispatch_msgs. now rewrite H. Qed.
+
+(* ---------- MacroMetadata ---------- *)
+Lemma rfind_none c s : ~ In c s -> rfind c s = None.
+Proof.
+  induction s as [|x t IH]; intros H; [reflexivity|]. cbn [rfind].
+  rewrite IH by (intros Hi; apply H; now right).
+  destruct (N.eqb_spec x c) as [E|E]; [exfalso; apply H; now left|reflexivity].
+Qed.
+
+Lemma rfind_app c a b : ~ In c b -> rfind c (a ++ c :: b) = Some (N.of_nat (length a)).
+Proof.
+  intros Hb. induction a as [|x a IH]; cbn [app rfind length].
+  - now rewrite (rfind_none _ _ Hb), N.eqb_refl.
+  - rewrite IH. now rewrite Nat2N.inj_succ.
+Qed.
+
+Lemma fnpos_loop_app a : forall b i f,
+  fnpos_loop (a ++ b) i f = fnpos_loop b (i + N.of_nat (length a)) (fnpos_loop a i f).
+Proof.
+  induction a as [|x a IH]; intros b i f; cbn [app fnpos_loop length].
+  - now rewrite N.add_0_r.
+  - rewrite Nat2N.inj_succ.
+    destruct (N.eqb x c_slash); rewrite IH; f_equal; lia.
+Qed.
+
+Lemma fnpos_loop_none s : forall i f, ~ In c_slash s -> fnpos_loop s i f = f.
+Proof.
+  induction s as [|x t IH]; intros i f H; [reflexivity|]. cbn [fnpos_loop].
+  destruct (N.eqb_spec x c_slash) as [E|E]; [exfalso; apply H; now left|].
+  apply IH. intros Hi; apply H; now right.
+Qed.
+
+Lemma firstn_length_app {A} (a b : list A) : firstn (length a) (a ++ b) = a.
+Proof. induction a as [|x a IH]; cbn; [now destruct b|now rewrite IH]. Qed.
+Lemma skipn_length_app {A} (a b : list A) : skipn (length a) (a ++ b) = b.
+Proof. induction a as [|x a IH]; cbn; auto. Qed.
+
+(* dir is empty or ends with '/'; fname has no '/'; line has neither '/' nor ':' *)
+Lemma mm_fields dir fname line :
+  (dir = [] \/ exists d, dir = d ++ [c_slash]) ->
+  ~ In c_slash fname -> ~ In c_slash line -> ~ In c_colon line ->
+  let sl := dir ++ fname ++ [c_colon] ++ line in
+  (N.of_nat (length sl) < 65536)%N ->
+  mm_source_location sl = (dir ++ fname) ++ [c_colon] ++ line /\
+  mm_full_path sl = dir ++ fname /\
+  mm_line sl = line /\
+  mm_file_name sl = fname /\
+  mm_short_source_location sl = fname ++ [c_colon] ++ line /\
+  mm_in_bounds sl = true.
+Proof.
+  intros Hdir Hf Hl1 Hl2 sl Hlen.
+  assert (Hsl : sl = (dir ++ fname) ++ c_colon :: line) by (unfold sl; now rewrite <- app_assoc).
+  assert (Hsl2 : sl = dir ++ (fname ++ c_colon :: line)) by reflexivity.
+  clearbody sl.
+  assert (Hcp : colon_pos sl = N.of_nat (length (dir ++ fname))).
+  { unfold colon_pos. rewrite Hsl at 1. rewrite (rfind_app _ _ _ Hl2). unfold w16. apply N.mod_small.
+    rewrite Hsl, app_length in Hlen. lia. }
+  assert (Hfp : file_name_pos sl = N.of_nat (length dir)).
+  { unfold file_name_pos. rewrite Hsl2, fnpos_loop_app.
+    rewrite fnpos_loop_none.
+    - destruct Hdir as [->|[d ->]]; [reflexivity|].
+      rewrite fnpos_loop_app. cbn [fnpos_loop]. change (N.eqb c_slash c_slash) with true. cbv iota.
+      unfold w16. rewrite app_length. cbn [length].
+      rewrite N.mod_small; [lia|]. rewrite Hsl2, !app_length in Hlen. cbn [length] in Hlen. lia.
+    - apply not_in_app; [exact Hf|]. intros [E|Hi]; [discriminate|now apply Hl1]. }
+  unfold mm_source_location, mm_full_path, mm_line, mm_file_name, mm_short_source_location,
+    mm_in_bounds, firstN, skipN.
+  rewrite Hcp, Hfp.
+  replace (N.to_nat (N.of_nat (length (dir ++ fname)) + 1)) with (S (length (dir ++ fname))) by lia.
+  replace (N.to_nat (N.of_nat (length (dir ++ fname)) - N.of_nat (length dir))) with (length fname)
+    by (rewrite app_length; lia).
+  rewrite !Nat2N.id.
+  repeat split.
+  - exact Hsl.
+  - rewrite Hsl. apply firstn_length_app.
+  - rewrite Hsl. replace ((dir ++ fname) ++ c_colon :: line) with (((dir ++ fname) ++ [c_colon]) ++ line)
+      by (now rewrite <- app_assoc).
+    replace (S (length (dir ++ fname))) with (length ((dir ++ fname) ++ [c_colon]))
+      by (rewrite (app_length _ [c_colon]); cbn; lia).
+    apply skipn_length_app.
+  - rewrite Hsl2, skipn_length_app. apply firstn_length_app.
+  - rewrite Hsl2. apply skipn_length_app.
+  - apply andb_true_iff. split; [apply N.ltb_lt|apply N.leb_le].
+    + rewrite Hsl, !app_length. cbn [length]. lia.
+    + rewrite app_length. lia.
+Qed.
+
+(* ---------- runtime metadata split ---------- *)
+Lemma starts_with_sep_app c t r :
+  starts_with sep (c :: t) = false -> starts_with sep (c :: t ++ sep ++ r) = false.
+Proof.
+  unfold sep. cbn [starts_with].
+  destruct (N.eqb_spec 1 c) as [E1|E1]; [|reflexivity]. cbn [andb].
+  destruct t as [|d t]; [reflexivity|]. cbn [app].
+  destruct (N.eqb_spec 2 d) as [E2|E2]; [|reflexivity]. cbn [andb].
+  destruct t as [|e t]; [reflexivity|]. cbn [app].
+  destruct (N.eqb_spec 3 e) as [E3|E3]; [|reflexivity]. cbn [andb]. discriminate.
+Qed.
+
+Lemma find_sep_here f r : find_sep f = None -> find_sep (f ++ sep ++ r) = Some (f, r).
+Proof.
+  induction f as [|c t IH]; intros H; [reflexivity|].
+  cbn [find_sep] in H. destruct (starts_with sep (c :: t)) eqn:Es; [discriminate|].
+  destruct (find_sep t) as [[a b]|] eqn:Et; [discriminate|].
+  change ((c :: t) ++ sep ++ r) with (c :: t ++ sep ++ r). cbn [find_sep].
+  rewrite (starts_with_sep_app _ _ _ Es). now rewrite IH.
+Qed.
+
+Lemma rt_split_fields msg file line func :
+  find_sep msg = None -> find_sep file = None -> find_sep line = None ->
+  rt_split (msg ++ sep ++ file ++ sep ++ line ++ sep ++ func) = Some (msg, file, line, func).
+Proof.
+  intros Hm Hf Hl. unfold rt_split.
+  now rewrite (find_sep_here _ _ Hm), (find_sep_here _ _ Hf), (find_sep_here _ _ Hl).
+Qed.
+
+(* ---------- patterns that are not in normal form ---------- *)
+Fixpoint normalize (p : pat) : pat :=
+  match p with
+  | [] => []
+  | Lit s :: r => match normalize r with
+                  | Lit t :: r' => Lit (s ++ t) :: r'
+                  | r' => Lit s :: r'
+                  end
+  | Attr a sp :: r => Attr a sp :: normalize r
+  end.
+
+Lemma normalize_print p : print (normalize p) = print p.
+Proof.
+  induction p as [|[s|a sp] r IH]; [reflexivity| |].
+  - cbn [normalize]. rewrite (print_cons (Lit s) r), <- IH.
+    destruct (normalize r) as [|[t|a sp] r']; rewrite !print_cons; cbn [print_item]; auto.
+    now rewrite app_assoc.
+  - cbn [normalize]. now rewrite !print_cons, IH.
+Qed.
+
+Lemma normalize_line apply_spec env p :
+  line_spec apply_spec (normalize p) env = line_spec apply_spec p env.
+Proof.
+  induction p as [|[s|a sp] r IH]; [reflexivity| |].
+  - cbn [normalize]. rewrite (line_spec_cons apply_spec env (Lit s) r), <- IH.
+    destruct (normalize r) as [|[t|a sp] r']; rewrite !line_spec_cons; cbn [subst]; auto.
+    now rewrite app_assoc.
+  - cbn [normalize]. now rewrite !line_spec_cons, IH.
+Qed.
+
+Lemma normalize_attrs p : attrs (normalize p) = attrs p.
+Proof.
+  induction p as [|[s|a sp] r IH]; [reflexivity| |]; cbn [normalize attrs].
+  - rewrite <- IH. destruct (normalize r) as [|[t|a sp] r']; reflexivity.
+  - now rewrite IH.
+Qed.
+
+Lemma normalize_no_adj p : no_adj_lit (normalize p).
+Proof.
+  induction p as [|[s|a sp] r IH]; [exact I| |]; cbn [normalize]; [|exact IH].
+  destruct (normalize r) as [|[t|a sp] r']; cbn [no_adj_lit] in *; auto.
+Qed.
+
+(* ---------- refutations: what the faithful model shows false ---------- *)
+Definition id_spec (fs v : bytes) : bytes := v.
+Definition env0 (a : attr) : bytes := attr_name a.
+
+(* (1) the empty pattern is special-cased: format() returns an empty string, no newline *)
+Lemma empty_pattern_refuted :
+  wf [] /\ generate (print []) = GOk (gen_of []) /\
+  format_env id_spec (gen_of []) env0 = FOk [] /\
+  format_env id_spec (gen_of []) env0 <> FOk (line_spec id_spec [] env0).
+Proof.
+  repeat split; try (vm_compute; reflexivity).
+  - constructor.
+  - constructor.
+  - vm_compute. discriminate.
+Qed.
+
+(* (2) literal braces are not preserved: "{{" comes out as "{", a lone "{" makes format() throw
+   (so "arbitrary literal text" has to exclude braces) *)
+Lemma brace_literal_refuted :
+  generate (print [Lit [c_lb; c_lb]; Attr Message None]) = GOk (gen_of [Lit [c_lb; c_lb]; Attr Message None]) /\
+  format_env id_spec (gen_of [Lit [c_lb; c_lb]; Attr Message None]) env0
+    = FOk (c_lb :: attr_name Message ++ [c_nl]) /\
+  line_spec id_spec [Lit [c_lb; c_lb]; Attr Message None] env0
+    = c_lb :: c_lb :: attr_name Message ++ [c_nl] /\
+  generate (print [Lit [c_lb]; Attr Message None]) = GOk (gen_of [Lit [c_lb]; Attr Message None]) /\
+  format_env id_spec (gen_of [Lit [c_lb]; Attr Message None]) env0 = FErr FE_unmatched_rb.
+Proof. repeat split; vm_compute; reflexivity. Qed.
+
+(* (3) an attribute used twice (excluded by the property): accepted at creation, the slot of the
+   first occurrence is never filled and format() throws "argument not found" *)
+Lemma duplicate_attr_refuted :
+  let p := [Attr Message None; Lit [32%N]; Attr Message None] in
+  generate (print p) = GOk (gen_of p) /\
+  format_env id_spec (gen_of p) env0 = FErr FE_arg_not_found.
+Proof. split; vm_compute; reflexivity. Qed.
+
+(* (4) two adjacent literal items can print as an attribute opener: the normal-form condition of
+   [wf] is needed (and [normalize] restores it) *)
+Lemma adjacent_literals_need_normal_form :
+  let p := [Lit [c_pct]; Lit (c_lp :: attr_name Message ++ [c_rp])] in
+  Forall wf_item p /\ NoDup (attrs p) /\
+  generate (print p) = GOk (gen_of [Attr Message None]) /\
+  ~ Forall wf_item (normalize p).
+Proof.
+  cbv zeta. repeat split.
+  - repeat constructor; try (apply notin_b; reflexivity).
+  - constructor.
+  - intros H. inversion H as [|? ? Hit _]. destruct Hit as (_ & _ & Hf). vm_compute in Hf. discriminate.
+Qed.
+
+(* (5) MacroMetadata keeps the ':' and file-name positions in uint16_t: a source location of
+   65536 bytes or more (only possible with run-time metadata) yields wrong fields *)
+Definition long_path : bytes := repeat 97%N (N.to_nat 65536).
+Lemma mm_long_path_refuted :
+  let sl := long_path ++ [c_colon] ++ [49%N] in
+  mm_full_path sl = [] /\ mm_full_path sl <> long_path /\
+  N.of_nat (length (mm_line sl)) = 65537%N.
+Proof.
+  cbv zeta. assert (H : mm_full_path (long_path ++ [c_colon] ++ [49%N]) = []) by (vm_compute; reflexivity).
+  split; [exact H|split; [rewrite H; intros E; apply (f_equal (fun l => N.of_nat (length l))) in E; vm_compute in E; discriminate|vm_compute; reflexivity]].
+Qed.
+
+(* ---------- non-vacuity ---------- *)
+Definition ex_pat : pat :=
+  [Attr Time None; Lit [32; 91]%N; Attr ThreadId None; Lit [93; 32; 37]%N;
+   Attr ShortSourceLocation (Some [60; 50; 56]%N); Lit [32; 76; 79; 71; 95; 40; 41; 58]%N;
+   Attr LogLevel (Some [37; 60; 57]%N); Lit [32]%N; Attr Logger None; Lit [32; 37]%N; Attr Message None].
+
+Definition wf_itemb (it : item) : bool :=
+  match it with
+  | Lit s => negb (existsb (N.eqb c_lb) s) && negb (existsb (N.eqb c_rb) s)
+             && match find_attr s with None => true | _ => false end
+  | Attr _ None => true
+  | Attr _ (Some sp) => negb (existsb (N.eqb c_rp) sp) && negb (existsb (N.eqb c_lb) sp)
+                        && negb (existsb (N.eqb c_rb) sp)
+                        && match find_attr sp with None => true | _ => false end
+  end.
+
+Lemma wf_itemb_sound it : wf_itemb it = true -> wf_item it.
+Proof.
+  destruct it as [s|a [sp|]]; cbn [wf_itemb wf_item]; [| |auto].
+  - rewrite !andb_true_iff, !negb_true_iff. intros [[H1 H2] H3].
+    repeat split; try (now apply notin_b). now destruct (find_attr s).
+  - rewrite !andb_true_iff, !negb_true_iff. intros [[[H1 H2] H3] H4].
+    repeat split; try (now apply notin_b). now destruct (find_attr sp).
+Qed.
+
+Lemma ex_pat_wf : wf ex_pat.
+Proof.
+  split; [|split].
+  - cbn [ex_pat attrs].
+    repeat (constructor; [cbn; intros H; repeat (destruct H as [H|H]; [discriminate|]); exact H|]).
+    constructor.
+  - unfold ex_pat. repeat (constructor; [apply wf_itemb_sound; reflexivity|]). constructor.
+  - cbn. exact I.
+Qed.
+
+Lemma ex_pat_nonempty : print ex_pat <> [].
+Proof. vm_compute. discriminate. Qed.
+
+(* ---------- the statements of C12 assembled ---------- *)
+Lemma line_created apply_spec p : wf p -> print p <> [] ->
+  exists g, generate (print p) = GOk g /\
+            forall st, format apply_spec g st = FOk (line_spec apply_spec p (env_of st)).
+Proof.
+  intros Hwf Hne. exists (gen_of p). split; [now apply gen_print|].
+  intros st. unfold format. now apply format_env_line.
+Qed.
+
+(* any item list whose normal form is well formed (adjacent literals are merged first) *)
+Lemma line_created_normalized apply_spec p : wf (normalize p) -> print p <> [] ->
+  exists g, generate (print p) = GOk g /\
+            forall env, format_env apply_spec g env = FOk (line_spec apply_spec p env).
+Proof.
+  intros Hwf Hne. exists (gen_of (normalize p)). split.
+  - rewrite <- (normalize_print p). now apply gen_print.
+  - intros env. rewrite <- (normalize_line apply_spec env p).
+    apply format_env_line; [exact Hwf|now rewrite normalize_print].
+Qed.
+
+Lemma sink_lines_on apply_spec p st : wf p -> print p <> [] -> nargs_empty (s_nargs st) = true ->
+  sink_lines apply_spec true (gen_of p) st =
+  Some (map (fun m => FOk (line_spec apply_spec p (env_of (with_msg st m))))
+            (match s_msg st with [] => [[]] | _ => drop_last_empty (split_on c_nl (s_msg st)) end)).
+Proof.
+  intros Hwf Hne Hna. unfold sink_lines. rewrite (multiline_on _ _ Hna). f_equal.
+  apply map_ext. intros m. unfold format. now apply format_env_line.
+Qed.
+
+Lemma sink_lines_off apply_spec add_meta p st : wf p -> print p <> [] ->
+  add_meta && nargs_empty (s_nargs st) = false ->
+  sink_lines apply_spec add_meta (gen_of p) st =
+  Some [FOk (line_spec apply_spec p (env_of (with_msg st (strip_one_nl (s_msg st)))))].
+Proof.
+  intros Hwf Hne Hoff. unfold sink_lines. rewrite (multiline_off _ _ _ Hoff). cbn [map].
+  unfold format. now rewrite format_env_line.
+Qed.
+
+(* the text a line is made of: every attribute of the statement, as the property lists them *)
+Lemma env_of_fields st :
+  env_of st Time = s_time st /\ env_of st LogLevel = s_level st /\
+  env_of st LogLevelShortCode = s_short st /\ env_of st Logger = s_logger st /\
+  env_of st ThreadId = s_thread_id st /\ env_of st ThreadName = s_thread_name st /\
+  env_of st ProcessId = s_process_id st /\ env_of st CallerFunction = s_func st /\
+  env_of st Message = s_msg st /\
+  env_of st Tags = match s_tags st with Some t => t | None => [] end /\
+  env_of st NamedArgs = match s_nargs st with Some l => join_nargs l | None => [] end /\
+  env_of st SourceLocation = s_srcloc st /\
+  env_of st FullPath = mm_full_path (s_srcloc st) /\ env_of st LineNumber = mm_line (s_srcloc st) /\
+  env_of st FileName = mm_file_name (s_srcloc st) /\
+  env_of st ShortSourceLocation = mm_short_source_location (s_srcloc st).
+Proof. repeat split. Qed.
+
+(* the named_args text is "k: v" joined with ", " *)
+Fixpoint join_str (sp : bytes) (l : list bytes) : bytes :=
+  match l with
+  | [] => []
+  | x :: r => match r with [] => x | _ => x ++ sp ++ join_str sp r end
+  end.
+
+Lemma join_nargs_spec l :
+  join_nargs l = join_str [44; 32]%N (map (fun kv => fst kv ++ [58; 32]%N ++ snd kv) l).
+Proof.
+  induction l as [|[k v] r IH]; [reflexivity|].
+  cbn [join_nargs map fst snd join_str]. destruct r as [|kv r'].
+  - cbn [map]. now rewrite app_nil_r.
+  - rewrite IH. cbn [map]. now rewrite <- !app_assoc.
+Qed.
